@@ -134,6 +134,8 @@ def evaluate(ctx, case):
 
 def schedules_for(rng, n, bounds, quick):
     out = [['giant', []], ['fixed-1MiB', sl.fixed(n, MI)], ['fixed-64KiB', sl.fixed(n, 65536)]]
+    if rng.random() < 0.6:
+        out.append(['fixed-512', sl.fixed(n, 512)])            # what FileInspector.from_file uses
     if not quick or rng.random() < 0.5:
         out.append(['fixed-4KiB', sl.fixed(n, 4096)])
     near = sorted({b + d for b in bounds for d in (-1, 0, 1) if 0 < b + d < n})
